@@ -304,7 +304,24 @@ func runScenario(c Case) interface{} {
 		scratch = os.TempDir()
 	}
 	scenarioSeq++
-	root, err := ioutil.TempDir(scratch, fmt.Sprintf("sc%d-", scenarioSeq))
+	// every other scenario lives below a directory whose name needs octal escapes in
+	// mountinfo (blank, backslash): the virtual base path stays /VB
+	pat := fmt.Sprintf("sc%d-", scenarioSeq)
+	// (layerconfig has no quoting: a literal path below the base path inside a file cannot
+	// contain a blank, so such scenarios keep a plain name)
+	literal := false
+	if tree, ok := c["tree"].([]interface{}); ok {
+		for _, it := range tree {
+			ent := it.([]interface{})
+			if len(ent) > 2 && strings.Contains(unhx(ent[2]), VB) {
+				literal = true
+			}
+		}
+	}
+	if scenarioSeq%2 == 0 && !literal {
+		pat = fmt.Sprintf("sc %d\\b-", scenarioSeq)
+	}
+	root, err := ioutil.TempDir(scratch, pat)
 	if err != nil {
 		return obj("harness-error", err.Error())
 	}
